@@ -1,5 +1,182 @@
-From Coq Require Import NArith List.
-From LibaV Require Import C05.DListDefs C05.DListProofs.
-Theorem c05_placeholder : rd_next (l_world 1) 1%N = Some 1%N.
-Proof. exact l_world_1. Qed.
-Print Assumptions c05_placeholder.
+(* C05 -- Linked lists and the queue keep sequence and ring integrity under any history.
+
+   Models (tied to the C by checks/C05.py): C05/DListDefs.v (include/a/list.h), C05/SListDefs.v
+   (include/a/slist.h), C05/QueDefs.v (src/que.c, include/a/que.h): pointer level, every field
+   access checked, allocation explicit.
+   Vocabulary: C05/DListSpec.v ([dl_step]/[dl_run] abstract list machine over rings and detached
+   chains, [DInv]), C05/SListSpec.v ([sl_step]/[sl_run], [SInv]), C05/QueSpec.v ([dq_step] abstract
+   double-ended sequences of (address, value) elements, [QInv]); [Ring]/[Piece]/[Slist] in
+   C05/DListProofs.v, C05/SListProofs.v.  Examples showing that the hypotheses can be met:
+   dl_run_example, dl_world4_inv (DListRunProofs.v), sl_run_example (SListRunProofs.v),
+   ex_hist_pre, ex_hist_run (QueExamples.v), world3_inv (QueProofs.v). *)
+From Coq Require Import NArith ZArith List Bool.
+From LibaV Require Import C05.DListDefs C05.DListProofs C05.DListSpec C05.DListRunProofs C05.DListObsProofs.
+From LibaV Require Import C05.SListDefs C05.SListProofs C05.SListSpec C05.SListRunProofs.
+From LibaV Require Import C05.QueDefs C05.QueSpec C05.QueProofs C05.QueExamples.
+Import ListNotations.
+Local Open Scope N_scope.
+
+(* ================================================================ include/a/list.h *)
+
+(* Clause "after any sequence of intrusive-list operations (adding, deleting, moving, rotating,
+   replacing and swapping nodes or sections that are disjoint and not adjacent) forward and backward
+   links stay mutually consistent and the nodes reachable from a head are exactly those of an abstract
+   sequence": every history [os] the abstract machine accepts from [a] (the preconditions are the
+   side conditions of dl_step) is executed by the code without a fault, and the heap then represents
+   the abstract result [a'] - from ANY heap representing [a], for histories of any length. *)
+Theorem list_history :
+  forall (os : list lop) (a a' : dabs), dl_run os a a' ->
+  forall h : dheap, DInv h a -> exists h', l_run h os = Some h' /\ DInv h' a'.
+Proof. exact dl_run_refines. Qed.
+Print Assumptions list_history.
+
+(* one operation, from any heap satisfying the invariant (not only reachable ones) *)
+Theorem list_step :
+  forall (o : lop) (a a' : dabs), dl_step o a a' ->
+  forall h : dheap, DInv h a -> exists h', l_step h o = Some h' /\ DInv h' a'.
+Proof. exact dl_step_refines. Qed.
+Print Assumptions list_step.
+
+(* what DInv means for an observer: from any node c of a ring written c :: xs, following next
+   visits exactly xs and returns to c, following prev visits xs backwards, no node twice, and
+   x->next = y implies y->prev = x all around the ring *)
+Theorem list_observed :
+  forall (h : dheap) (a : dabs) (c : id) (xs : list id) (fuel : nat),
+  DInv h a -> In (c :: xs) (fst a) -> (length xs < fuel)%nat ->
+  ring_of h c fuel = Some xs /\ ring_of_back h c fuel = Some (rev xs) /\ NoDup (c :: xs) /\
+  (forall x, In x (c :: xs) -> exists y, In y (c :: xs) /\ rd_next h x = Some y /\ rd_prev h y = Some x).
+Proof. exact DInv_observed. Qed.
+Print Assumptions list_observed.
+
+(* the starting point of the histories: n constructed nodes *)
+Theorem list_initial : forall n : nat, DInv (l_world n) (d_abs0 n).
+Proof. exact l_world_inv. Qed.
+Print Assumptions list_initial.
+
+(* the central case spelled out: exchanging two disjoint, non-adjacent sections s1 and s2 of one ring *)
+Theorem list_swap_sections :
+  forall (h : dheap) (s1 a s2 b : list id),
+  Ring h (s1 ++ a ++ s2 ++ b) -> s1 <> [] -> a <> [] -> s2 <> [] -> b <> [] ->
+  exists h', l_swap_ h (hd0 s1) (last s1 0) (hd0 s2) (last s2 0) = Some h' /\
+    Ring h' (s2 ++ a ++ s1 ++ b) /\
+    Frame h h' (s1 ++ a ++ s2 ++ b) /\ (forall x, live h' x <-> live h x).
+Proof. exact swap__same_ring. Qed.
+Print Assumptions list_swap_sections.
+
+(* ================================================================ include/a/slist.h *)
+
+(* Clause "the singly linked list's tail always designates its last node", over any history of
+   a_slist_ctor/add/add_head/add_tail/del/del_head/mov/rot on any number of list objects. *)
+Theorem slist_history :
+  forall (os : list sop) (a a' : sabs), sl_run os a a' ->
+  forall w : sworld, SInv w a -> exists w', s_run w os = Some w' /\ SInv w' a'.
+Proof. exact sl_run_refines. Qed.
+Print Assumptions slist_history.
+
+Theorem slist_step :
+  forall (o : sop) (a a' : sabs), sl_step o a a' ->
+  forall w : sworld, SInv w a -> exists w', s_step w o = Some w' /\ SInv w' a'.
+Proof. exact sl_step_refines. Qed.
+Print Assumptions slist_step.
+
+(* what SInv means for an observer: the walk from the head yields exactly the abstract sequence,
+   tail = its last node (the head itself when empty), whose next is NULL *)
+Theorem slist_tail_is_last :
+  forall (w : sworld) (a : sabs) (L : id) (xs : list id) (fuel : nat),
+  SInv w a -> In (L, xs) (sa_lists a) -> (length xs < fuel)%nat ->
+  s_list_of w L fuel = Some xs /\ t_rd w L = Some (last xs L) /\ s_rd w (last xs L) = Some 0 /\ NoDup (L :: xs).
+Proof. exact SInv_observed. Qed.
+Print Assumptions slist_tail_is_last.
+
+Theorem slist_initial : forall n : nat, SInv (s_world n) (s_abs0 n).
+Proof. exact s_world_inv. Qed.
+Print Assumptions slist_initial.
+
+(* a_slist_rot as found in the pinned tree (guard `if (node)`), kept as s_rot_orig: refuted.
+   /repo now has the guard `node && node->next` (fix commit 75a0696) and s_rot models that. *)
+Theorem slist_rot_as_found_refuted :
+  exists w L a, Slist w L [a] /\
+    exists w', s_rot_orig w L = Some w' /\ s_rd w' L = Some 0 /\ t_rd w' L = Some a /\
+               forall xs, ~ Slist w' L xs.
+Proof. exact rot_orig_refuted. Qed.
+Print Assumptions slist_rot_as_found_refuted.
+
+(* ================================================================ src/que.c, include/a/que.h *)
+
+(* Clause "the queue behaves as a double-ended sequence: push, pull, positional insert/remove,
+   indexed access from either end, sorted insertion, element swap, whole-queue swap, drop and
+   element-size change all leave exactly the abstract sequence's contents", for two queue objects,
+   every history (every index in N / Z), every allocator fault schedule.  An element is the pair
+   (address, value): dq_step keeps every pair of every element that stays enqueued, so "element
+   addresses stay fixed while enqueued"; a new element's address n satisfies ~ In n (addrs A), so
+   "a recycled node is never handed out while still enqueued". *)
+Theorem que_history :
+  forall (os : list qop) (w : qworld) (X : list id * list id),
+  QInv w X -> hist_pre w os ->
+  exists w' rs X', q_run w os = Ok (w', rs) /\ QInv w' X' /\ dq_run os (abs w X) rs (abs w' X').
+Proof. exact run_refines. Qed.
+Print Assumptions que_history.
+
+(* one operation from any state satisfying the invariant; an operation reports failure only when
+   an allocation request was refused during it *)
+Theorem que_step :
+  forall (w0 : qworld) (X : list id * list id) (o : qop),
+  QInv w0 X -> dq_pre o (abs w0 X) ->
+  exists w' r X', q_step w0 o = Ok (w', r) /\ QInv w' X' /\
+    dq_step o (abs w0 X) r (failed w') (abs w' X') /\
+    (not_sched o -> no_fault w0 -> no_fault w' /\ failed w' = false).
+Proof. exact step_refines. Qed.
+Print Assumptions que_step.
+
+(* with an allocator that never refuses, no operation of any history fails *)
+Theorem que_no_fault :
+  forall (os : list qop) (w : qworld) (X : list id * list id),
+  QInv w X -> hist_pre w os -> no_fault w -> Forall not_sched os ->
+  exists w' rs X', q_run w os = Ok (w', rs) /\ QInv w' X' /\ no_fault w' /\
+    (os <> [] -> failed w' = false).
+Proof. exact run_no_fault. Qed.
+Print Assumptions que_no_fault.
+
+(* what QInv means for an observer: ring walked forwards / backwards = the abstract sequence /
+   its reverse, num_ = its length, no node twice among enqueued and pooled nodes, a pooled
+   (recycled) node is not enqueued *)
+Theorem que_invariant_facts :
+  forall (w : qworld) (X : list id * list id), QInv w X ->
+  (forall s, ring_of (w_h w) (qaddr s) (fuel_of w) = Some (sel s X)) /\
+  (forall s, ring_of_back (w_h w) (qaddr s) (fuel_of w) = Some (rev (sel s X))) /\
+  (forall s, q_num (getq w s) = N.of_nat (length (sel s X))) /\
+  NoDup (fst X ++ snd X ++ pools w) /\
+  (forall s x, In x (q_pool (getq w s)) -> ~ In x (fst X ++ snd X)).
+Proof. exact inv_facts. Qed.
+Print Assumptions que_invariant_facts.
+
+Theorem que_initial : QInv q_world0 ([], []).
+Proof. exact world0_inv. Qed.
+Print Assumptions que_initial.
+
+(* a concrete history (pushes on both queues, element swap of neighbours, whole-queue swap, pull,
+   push that recycles the pulled node, insert, at(-1)) meets the hypotheses and runs as stated *)
+Theorem que_example_history :
+  hist_pre q_world0 ex_hist /\
+  exists w', q_run q_world0 ex_hist = Ok (w', [3; 4; 5; 0; 0; 4; 4; 6; 4]%Z) /\
+             ring_of (w_h w') 1 (fuel_of w') = Some [5] /\
+             ring_of (w_h w') 2 (fuel_of w') = Some [3; 6; 4].
+Proof. exact (conj ex_hist_pre ex_hist_run). Qed.
+Print Assumptions que_example_history.
+
+(* a_que_swap_ and a_que_swap as found in the pinned tree (kept as q_swap_elem_orig / q_swap_orig):
+   refuted.  /repo now has the repaired bodies (fix commits 0ee4e0e, d4160b5), modelled by
+   q_swap_elem / q_swap. *)
+Theorem que_swap_elem_as_found_refuted :
+  exists w X l r, QInv w X /\ In l (fst X) /\ In r (fst X) /\
+    exists w', q_swap_elem_orig w l r = Ok w' /\ ring_of (w_h w') 1 (fuel_of w') = None /\
+               forall X', ~ QInv w' X'.
+Proof. exact swap_elem_orig_refuted. Qed.
+Print Assumptions que_swap_elem_as_found_refuted.
+
+Theorem que_swap_as_found_refuted :
+  exists w X, QInv w X /\
+    exists w', q_swap_orig w false true = Ok w' /\ ring_of (w_h w') 1 (fuel_of w') = Some [2] /\
+               forall X', ~ QInv w' X'.
+Proof. exact swap_orig_refuted. Qed.
+Print Assumptions que_swap_as_found_refuted.
